@@ -342,21 +342,21 @@ theorem updateTaskRefStatus_good (key : String) (rj : Job) (tasks : List Task) (
 /-! ### task creation -/
 
 /-- what `syncCreateTask` returns, as a function of the state after the create and its result -/
-def createOut (jo : JobObj) (rj : Job) (tasks : List Task) (idx : PIndex) (retry : Int) (s1 : Sys) :
+def createOut (now : Time) (jo : JobObj) (rj : Job) (tasks : List Task) (idx : PIndex) (retry : Int) (s1 : Sys) :
     CreateRes → Option (Job × List Task)
-  | .ok p => (podTask p).map (fun t => (rj, tasks ++ [t]))
+  | .ok p => (podTask now p).map (fun t => (rj, tasks ++ [t]))
   | .err => none
   | .exists =>
     match findPod s1.podCache (taskName jo.name idx.hash retry) with
     | none => none
     | some p =>
-      if p.ownerUid = some jo.uid then (podTask p).map (fun t => (rj, tasks ++ [t]))
+      if p.ownerUid = some jo.uid then (podTask now p).map (fun t => (rj, tasks ++ [t]))
       else some ({ rj with admissionError := true }, tasks)
 
 theorem syncCreateTask_eq (s : Sys) (jo : JobObj) (rj : Job) (tasks : List Task) (idx : PIndex) (retry : Int) :
     syncCreateTask s jo rj tasks idx retry =
       ((apiCreatePod s jo idx retry).1,
-       createOut jo rj tasks idx retry (apiCreatePod s jo idx retry).1 (apiCreatePod s jo idx retry).2) := by
+       createOut s.clock jo rj tasks idx retry (apiCreatePod s jo idx retry).1 (apiCreatePod s jo idx retry).2) := by
   unfold syncCreateTask createOut
   generalize apiCreatePod s jo idx retry = r
   obtain ⟨s1, res⟩ := r
@@ -372,7 +372,7 @@ theorem syncCreateTask_eq (s : Sys) (jo : JobObj) (rj : Job) (tasks : List Task)
 theorem syncCreateTask_good (jo : JobObj) (rj : Job) (tasks : List Task) (idx : PIndex) (retry : Int) (s : Sys) :
     Good (fun t => syncCreateTask t jo rj tasks idx retry) s :=
   Good.of_eq (fun q' => syncCreateTask_eq (setQ s q') jo rj tasks idx retry)
-    (Good.map (apiCreatePod_good jo idx retry s) (createOut jo rj tasks idx retry) (fun _ _ a => by cases a <;> rfl))
+    (Good.map (apiCreatePod_good jo idx retry s) (createOut s.clock jo rj tasks idx retry) (fun _ _ a => by cases a <;> rfl))
 
 /-- the continuation of `createLoop` after the create of one request -/
 def createK (jo : JobObj) (rest : List CreationRequest) (m : Option Time) (o : Option (Job × List Task)) (s1 : Sys) :
